@@ -1,0 +1,14 @@
+//go:build !verif
+// +build !verif
+
+// Package verifhook marks the places where a goroutine leaves one critical section and has not yet
+// entered the next one. Without the build tag `verif` the functions are empty and are inlined away.
+package verifhook
+
+import "sync"
+
+// Point marks a window between two critical sections.
+func Point(site string) {}
+
+// PointLock marks the window before mu is locked.
+func PointLock(site string, mu *sync.Mutex) {}
